@@ -24,6 +24,8 @@ func main() {
 	verbose := flag.Bool("v", false, "verbose")
 	dump := flag.String("dump", "", "dump the query of the named obligation")
 	list := flag.Bool("list", false, "list contracts")
+	lemmas := flag.Bool("lemmas", false, "prove all spec-level lemmas (debug)")
+	replayFile := flag.String("replayfile", "", "re-run the property's oracle with the hints recorded in this replay file")
 	flag.Parse()
 
 	start := time.Now()
@@ -56,6 +58,30 @@ func main() {
 		}
 	}
 	opts := solveOpts{timeoutSec: to, workDir: *work, allAgree: *tier == "thorough", keep: *keep, par: 16}
+	if *replayFile != "" {
+		os.Exit(replayOnly(eng, *prop, *replayFile))
+	}
+	if *lemmas {
+		var obls []*Oblig
+		for _, ax := range eng.lib.Axioms {
+			if ax.Lemma {
+				obls = append(obls, eng.lemmaObligation(ax, *prop))
+			}
+		}
+		if *dump != "" {
+			for _, o := range obls {
+				if strings.Contains(o.Name, *dump) {
+					fmt.Print(o.query(to))
+				}
+			}
+			return
+		}
+		dischargeAll(obls, opts)
+		for _, o := range obls {
+			fmt.Printf("%-40s %-8s %-8s %5dms\n", o.Name, o.Result, o.Solver, o.Ms)
+		}
+		return
+	}
 	if *fnKey != "" {
 		key := resolveKey(eng, *fnKey)
 		u, err := eng.verifyFunctionFor(key, *prop)
